@@ -177,6 +177,9 @@ def g_commute(ctx, rng, i):
         rec("commute.meet", "t*meet(l,m) coplanar lines", lambda: t * g.meet(l, m), lambda: g.meet(t * l, t * m), [t, l, m])
         rec("commute.join", "t*join(l,m) coplanar lines", lambda: t * g.join(l, m), lambda: g.join(t * l, t * m), [t, l, m])
         rec("commute.meet", "t*meet(e,f) -> line", lambda: t * g.meet(H[0], H[1]), lambda: g.meet(t * H[0], t * H[1]), [t, H[0], H[1]])
+        # the same line in its covariant (dual) form: its image is the covariant form of the image
+        rec("commute.join", "t*(l.covariant_tensor) vs (t*l).covariant_tensor", lambda: t * l.covariant_tensor, lambda: (t * l).covariant_tensor, [t, l])
+        rec("commute.join", "(t*l.covariant_tensor).contravariant_tensor vs t*l", lambda: (t * l.covariant_tensor).contravariant_tensor, lambda: t * l, [t, l])
         # two lines through a common point in special position (coordinates adding up to zero, on an axis, at infinity)
         if mode == "int":
             cp = np.array(gen.pick(rng, [[1, -2, 0, 1], [-1, 0, 0, 1], [2, -4, 1, 1], [1, -1, 0, 0], [0, 0, 0, 1], [3, 0, 0, 1], [1, 1, -2, 0]]))
